@@ -138,6 +138,10 @@ pub fn grammar(max_n: usize) -> Grammar {
         leaves.push(Stmt::Render { name: Expr::var(v), form: RenderForm::Plain, args: vec![] });
     }
     leaves.push(Stmt::Render { name: Expr::s("p_probe"), form: RenderForm::For(Src::Expr(Expr::var("nothing")), "x".into()), args: vec![] });
+    // names that differ from an existing partial's only by surrounding whitespace name nothing
+    leaves.push(Stmt::Include { name: Expr::s(" p_probe"), args: vec![] });
+    leaves.push(Stmt::Render { name: Expr::s("p_probe "), form: RenderForm::Plain, args: vec![] });
+    leaves.push(Stmt::Include { name: Expr::var("padded"), args: vec![] });
     // one tag instance, a different partial name at every execution (and per data object)
     leaves.push(for_("pv", Src::Expr(Expr::var("names")), vec![Stmt::Render { name: Expr::var("pv"), form: RenderForm::Plain, args: vec![("x".into(), Expr::var("pv"))] }]));
     leaves.push(for_("pv", Src::Expr(Expr::var("names")), vec![Stmt::Include { name: Expr::var("pv"), args: vec![] }]));
@@ -164,6 +168,7 @@ pub fn datas() -> Vec<V> {
             ("pn", V::s("p_assign")),
             ("pm", V::s("missing")),
             ("nothing", V::Nil),
+            ("padded", V::s("\n  p_cycle\n")),
         ];
         v.extend(extra);
         V::obj(&v)
